@@ -51,6 +51,11 @@ pub fn c01(a: &Analysis) -> Vec<Violation> {
         }
         let Some(src) = a.rec.puts[put].source.as_ref() else { continue };
         let want = digest(src);
+        // the transaction's own filestore requests (or another Put) may legitimately change the
+        // delivered file before the success report reaches the user: not attributable
+        if dest_touched_by_requests(&a.rec.sc, put) {
+            continue;
+        }
         // receiver side reports
         for (i, f) in t.at_dst.finished() {
             if is_success(f) {
@@ -105,14 +110,29 @@ pub fn c01(a: &Analysis) -> Vec<Violation> {
     out
 }
 
+/// lexical normalisation of a filestore name ('.', '', leading '/' dropped, '..' pops)
+pub fn lexnorm(name: &str) -> String {
+    let mut out: Vec<&str> = vec![];
+    for c in name.split('/') {
+        match c {
+            "" | "." => {}
+            ".." => {
+                out.pop();
+            }
+            x => out.push(x),
+        }
+    }
+    out.join("/")
+}
+
 fn dest_touched_by_requests(sc: &Scenario, put: usize) -> bool {
-    let name = sc.puts[put].dst_name.trim_start_matches('/').to_string();
-    sc.puts.iter().enumerate().any(|(i, p)| {
-        (i != put && p.dst == sc.puts[put].dst && p.dst_name.trim_start_matches('/') == name)
-            || p.reqs.iter().any(|r| {
-                r.first.trim_start_matches('/') == name || r.second.trim_start_matches('/') == name
-            })
-    })
+    let name = lexnorm(&sc.puts[put].dst_name);
+    // a request naming the file itself, or a directory above it
+    let hits = |n: &str| {
+        let n = lexnorm(n);
+        !n.is_empty() && (n == name || name.starts_with(&format!("{}/", n)))
+    };
+    sc.puts.iter().enumerate().any(|(i, p)| (i != put && p.dst == sc.puts[put].dst && lexnorm(&p.dst_name) == name) || p.reqs.iter().any(|r| hits(&r.first) || hits(&r.second)))
 }
 
 // ---------------------------------------------------------------------------------------------
